@@ -82,7 +82,10 @@ def gen_history(rng, reaction, relabel: bool, n_builders: int, length: int, allo
         elif r < 0.5:
             ops.append({"op": "set", "builder": b, "field": "align", "value": str(rng.choice(aligns))})
         elif r < 0.58:
-            ops.append({"op": "naming", "builder": b, "parent": bool(rng.uniform() < 0.5), "child": bool(rng.uniform() < 0.6), "ls": bool(rng.uniform() < 0.6)})
+            # the three flags are independent setters: set a random subset in a random order (incl. single toggles)
+            flags = [str(f) for f in rng.permutation(["parent", "child", "ls"])][: int(rng.integers(1, 4))]
+            pdef = {"parent": 0.4, "child": 0.6, "ls": 0.6}
+            ops.append({"op": "naming", "builder": b, "order": [[f, bool(rng.uniform() < pdef[f])] for f in flags]})
         elif r < 0.7 and res:
             name = str(rng.choice(res))
             kinds = C.BUILDERS if C.l_available(reaction, name) else ["bw", "non_dynamic"]
@@ -137,6 +140,18 @@ def run_case(case, rec, ctx):
             nb = int(rng.integers(1, 4))
             ops = gen_history(rng, reaction, relabel, nb, int(rng.integers(4, 31)), allow_axis)
             histories.append((f"h{hnum}", nb, ops))
+        # a walk over the naming flags alone: single-flag toggles in random order with a formulate() after each, so every
+        # flag state is reached along several different paths (the name generator keeps derived state of its own)
+        cur = {"parent": False, "child": True, "ls": True}
+        walk = [{"op": "formulate", "builder": 0}]
+        for _ in range(10 if ctx["tier"] == "quick" else 24):
+            f = str(rng.choice(["parent", "child", "child", "ls"]))
+            cur[f] = not cur[f]
+            walk.append({"op": "naming", "builder": 0, "order": [[f, cur[f]]]})
+            if rng.uniform() < 0.75:
+                walk.append({"op": "formulate", "builder": 0})
+        walk.append({"op": "formulate", "builder": 0})
+        histories.append(("naming-walk", 1, walk))
         # derived schedules: reversed order of the configuration blocks and an interleaving of two histories
         hname, nb, ops = histories[0]
         histories.append((hname + "-reversed", nb, list(reversed(ops)) + [{"op": "formulate", "builder": 0}]))
